@@ -91,7 +91,7 @@ void harness (void)
         }
       __CPROVER_assert (verif_gk < 0 || verif_gk >= rhl || hdr_store[verif_gk] == in_buf[verif_gk], "read-back: the held header bytes are the input bytes");
       REACH("accepted");
-      if (H.fields[DBUS_HEADER_FIELD_REPLY_SERIAL].value_pos >= 0) REACH("accepted-with-reply-serial");
+      { int any = 0; for (c = 1; c <= DBUS_HEADER_FIELD_LAST; c++) if (H.fields[c].value_pos >= 0) any = 1; if (any) REACH("accepted-with-a-known-field"); }
     }
   else REACH("rejected");
 }
